@@ -719,15 +719,10 @@ pub fn run(opts: &Opts) -> i32 {
             rep.sample(json!({"prior": prior, "history": t}));
         }
         for f in found {
-            let r1 = replay_trace(&sys, &f.trace, false);
-            let r2 = replay_trace(&sys, &f.trace, false);
-            if r1.is_ok() || r2.is_ok() || r1.as_ref().err().map(|e| e.split(':').next().map(|s| s.to_string())) != r2.as_ref().err().map(|e| e.split(':').next().map(|s| s.to_string())) {
-                eprintln!("MACHINERY ERROR: C19 violation does not replay deterministically ({:?} vs {:?}); found: {} trace {:?}", r1, r2, f.what, f.trace);
-                std::process::exit(2);
-            }
+            let note = crate::util::confirm_or_exit("C19", &f.what, || replay_trace(&sys, &f.trace, false).err());
             rep.violation(Violation::new(
                 format!("{}:prior{prior}", f.what.split(':').next().unwrap_or("")),
-                f.what.clone(),
+                format!("{}{note}", f.what),
                 json!({"kind": "c19-trace", "prior": prior, "trace": f.trace, "observed": f.what}),
             ));
         }
